@@ -168,7 +168,40 @@ def check_sampler():
     return None
 
 
+def check_append_only_runs():
+    """committed history is append-only across sampler iterations: after every iteration each recorded quantity has exactly one
+    more batch and every earlier batch is bit-identical — also while prior-sampling iterations repeat and with a likelihood that is
+    zero on part of the prior (where the evidence bookkeeping of the warm-up phase is busiest)"""
+    for label, ll_, kw in (("gaussian", lambda x: -0.5 * float(np.sum(x ** 2)), dict(ess_ratio=2.0)),
+                           ("zero-likelihood region, long warm-up", lambda x: -np.inf if x[0] > 0.5 else -0.5 * float(np.sum(x ** 2)) / 0.2, dict(ess_ratio=6.0)),
+                           ("zero-likelihood region, dynamic mode", lambda x: -np.inf if x[1] < -2.0 else -0.5 * float(np.sum(x ** 2)), dict(volume_variation=0.5))):
+        s = Sampler(lambda u: 10 * u - 5, ll_, n_dim=2, n_particles=24, random_state=4, **kw)
+        s._core._initialize_fresh()
+        s._core.n_total = 96
+        prev = None
+        for it in range(14):
+            s.sample()
+            now = snapshot(s.state)["hist"]
+            if prev is not None:
+                for k in prev:
+                    if len(now[k]) != len(prev[k]) + 1 and len(prev[k]) > 0:
+                        return f"[{label}] iteration {it + 1}: history[{k}] grew by {len(now[k]) - len(prev[k])} batches"
+                    for i, x in enumerate(prev[k]):
+                        y = now[k][i]
+                        if isinstance(x, np.ndarray):
+                            if not np.array_equal(x, y, equal_nan=True):
+                                return f"[{label}] iteration {it + 1} altered the committed batch history[{k}][{i}]"
+                        elif x is not None and y != x and not (x != x and y != y):
+                            return f"[{label}] iteration {it + 1} altered the committed value history[{k}][{i}]: {x!r} -> {y!r}"
+            prev = now
+    return None
+
+
 def main():
+    r = check_append_only_runs()
+    if r:
+        print(json.dumps({"reproduced": True, "detail": r, "input": {"probe": "append-only over sampler iterations"}}))
+        return
     for nb in (0, 1, 2, 4):
         r = check_manager(nb)
         if r:
